@@ -247,3 +247,53 @@ theorem firstError_map_none (f : Name → Verdict) : ∀ (ns : List Name),
       simp [firstError] at h
 
 end BB.Auth
+
+namespace BB.Auth
+
+/-! ### the leaf calls stay inside the batch -/
+
+theorem pendingNames_subset : ∀ (ns : List Name) (errs : List Verdict) (n : Name),
+    n ∈ pendingNames ns errs → n ∈ ns
+  | [], _, n, h => by simp [pendingNames] at h
+  | _ :: _, [], n, h => by simp [pendingNames] at h
+  | x :: ns, e :: errs, n, h => by
+    by_cases hp : pending e = true
+    · simp only [pendingNames, hp, if_true, List.mem_cons] at h
+      rcases h with rfl | h
+      · simp
+      · exact List.mem_cons_of_mem _ (pendingNames_subset ns errs n h)
+    · simp only [pendingNames, hp] at h
+      exact List.mem_cons_of_mem _ (pendingNames_subset ns errs n h)
+
+mutual
+  theorem calls_subset : ∀ (a : Authz) (ns : List Name) (c : Nat × List Name),
+      c ∈ a.calls ns → ∀ n ∈ c.2, n ∈ ns
+    | .leaf _ _, ns, c, h => by
+      simp only [Authz.calls, List.mem_singleton] at h
+      subst h
+      exact fun n hn => hn
+    | .any ms, ns, c, h => by
+      simp only [Authz.calls] at h
+      exact callsAny_subset ms ns c h
+  theorem callsAny_subset : ∀ (ms : List Authz) (ns : List Name) (c : Nat × List Name),
+      c ∈ callsAny ms ns → ∀ n ∈ c.2, n ∈ ns
+    | [], _, c, h => by simp [callsAny] at h
+    | m0 :: rest, ns, c, h => by
+      simp only [callsAny, List.mem_append] at h
+      rcases h with h | h
+      · exact calls_subset m0 ns c h
+      · exact callsRest_subset rest ns _ c h
+  theorem callsRest_subset : ∀ (rest : List Authz) (ns : List Name) (errs : List Verdict)
+      (c : Nat × List Name), c ∈ callsRest rest ns errs → ∀ n ∈ c.2, n ∈ ns
+    | [], _, _, c, h => by simp [callsRest] at h
+    | m :: rest, ns, errs, c, h => by
+      simp only [callsRest] at h
+      by_cases hc : (pendingNames ns errs).isEmpty = true
+      · simp [hc] at h
+      · rw [if_neg hc, List.mem_append] at h
+        rcases h with h | h
+        · exact fun n hn => pendingNames_subset ns errs n (calls_subset m _ c h n hn)
+        · exact callsRest_subset rest ns _ c h
+end
+
+end BB.Auth
